@@ -12,13 +12,17 @@ import I3.Lemmas.LimbsField
 namespace I3.InvLoop
 open I3.Word I3.Gen.FFInv I3.Limbs
 
+-- `W` is the word modulus of I3.Exec.Word (inside `namespace I3` a bare `W` would resolve to the
+-- equal but distinct constant `I3.W` of I3.Exec.Field)
+local notation "W" => I3.Word.W
+
 /-! ## 1. piece lemmas -/
 
 theorem val4_mod2 (a b c d : Nat) : val4 a b c d % 2 = a % 2 := by
-  simp only [val4, W]; omega
+  simp only [val4, Word.W]; omega
 
 theorem top_half_lt (a : Nat) (ha : a < W) : a / 2 < W := by
-  simp only [W] at *; omega
+  simp only [Word.W] at *; omega
 
 theorem loop1_cond_iff (carry s0 s1 s2 s3 v0 v1 v2 v3 : Nat) :
     Inverse_loop1_cond carry s0 s1 s2 s3 v0 v1 v2 v3 = true ↔ val4 v0 v1 v2 v3 % 2 = 0 := by
@@ -89,25 +93,25 @@ theorem geLex_iff (v0 v1 v2 v3 u0 u1 u2 u3 : Nat)
     (hv0 : v0 < W) (hv1 : v1 < W) (hv2 : v2 < W) (hu0 : u0 < W) (hu1 : u1 < W) (hu2 : u2 < W) :
     (!((decide (v3 < u3) || ((decide (v3 = u3) && ((decide (v2 < u2) || ((decide (v2 = u2) && ((decide (v1 < u1) || ((decide (v1 = u1) && (decide (v0 < u0))))))))))))))) = true
      ↔ val4 u0 u1 u2 u3 ≤ val4 v0 v1 v2 v3 := by
-  simp only [Bool.not_eq_true', Bool.or_eq_false_iff, Bool.and_eq_false_iff, decide_eq_false_iff_not, val4, W] at *
+  simp only [Bool.not_eq_true', Bool.or_eq_false_iff, Bool.and_eq_false_iff, decide_eq_false_iff_not, val4, Word.W] at *
   omega
 
 /-- the arithmetic of `a -= b; if borrow { a += q }` on canonical values -/
 theorem submod_arith1 (A B D E k c : Nat) (_hA : A < Q) (hB : B < Q) (hD : D < R) (hE : E < R)
     (key : D + B + 0 = A + k * R) (hk : k = 1) (key2 : E + c * R = D + Q + 0) :
     E < Q ∧ (E + B) % Q = A := by
-  simp only [Q, R, W] at *
+  simp only [Q, R, Word.W] at *
   omega
 
 theorem submod_arith0 (A B D k : Nat) (hA : A < Q) (hB : B < Q) (hD : D < R)
     (key : D + B + 0 = A + k * R) (hk : k ≤ 1) (hk1 : ¬ k = 1) :
     D < Q ∧ (D + B) % Q = A := by
-  simp only [Q, R, W] at hA hB hD key ⊢
+  simp only [Q, R, Word.W] at hA hB hD key ⊢
   omega
 
 theorem subval_arith (A B D k : Nat) (hD : D < R) (hle : B ≤ A) (key : D + B + 0 = A + k * R) :
     D + B = A := by
-  simp only [R, W] at *
+  simp only [R, Word.W] at *
   omega
 
 theorem seg1_ge (carry r0 r1 r2 r3 s0 s1 s2 s3 u0 u1 u2 u3 v0 v1 v2 v3 : Nat)
